@@ -110,6 +110,8 @@ func (mem *Mempool) TxsFrontWait() *clist.CElement {
 //     It gets called from another goroutine.
 // CONTRACT: Either cb will get called, or err returned.
 func (mem *Mempool) ReceiveTx(tx types.Tx) (err error) {
+	mem.Lock() // Flush, Update and Reap hold it: the cache and the list change together
+	defer mem.Unlock()
 	if mem.cache.Exists(tx) {
 		return ErrTxInCache
 	}
